@@ -55,7 +55,7 @@ theorem step_w1 (cfg : Cfg) (s t : St) (f : Bool) (h : Step cfg f s t) (inv : W1
   | startCR _ i hi =>
     intro i' b' site' lg' hi'
     (try simp only [St.setDone, St.setBg] at hi') <;> (repeat' split at hi') <;> (try simp only [List.getElem?_set] at hi') <;> grind [St.setBg, St.setDone, St.bg, Alt, clearW, onOk, onErr, selNext, afterSetErr, ackWs]
-  | startSR _ i hi =>
+  | startSR _ i hi ha =>
     intro i' b' site' lg' hi'
     (try simp only [St.setDone, St.setBg] at hi') <;> (repeat' split at hi') <;> (try simp only [List.getElem?_set] at hi') <;> grind [St.setBg, St.setDone, St.bg, Alt, clearW, onOk, onErr, selNext, afterSetErr, ackWs]
   | startClose _ i hi =>
